@@ -186,6 +186,8 @@ def split_sig(sig):
             j = inner.find(close, i)
             if j >= 0:
                 cur += inner[i:j + len(close)]; i = j + len(close); continue
+        if c == "\\" and i + 1 < n:      # an escaped character (blank included) belongs to the unquoted parameter
+            cur += inner[i:i + 2]; i += 2; continue
         if c in " \t\n":
             if cur:
                 out.append(cur); cur = ""
